@@ -27,6 +27,9 @@
         for every trie the application can build and every 32-byte hash function - or exhibits a
         hash collision.
     M8  the size hypothesis of M7 holds for every trie built from keys <= 2^30 bytes, values <= 2^32 bytes;
+    M9  THE ROOT COMMITS TO THE CONTENT: equal root hashes => the same map for every key, unless the
+        hash function collides (node encodings are injective: RLP, hex-prefix, embedded vs hashed
+        references); with M6: equal roots <=> equal content up to collisions;
     J4-J6  the per-block commit with deleteEmptyObjects.
   NOT proved (decided per run by the engine, three ways: in-tree code = Lean model = go-ethereum
   v1.8.27): commit/reopen through the node database (the model keeps the tree in memory), the
@@ -42,6 +45,7 @@ import AnnVerif.Lemmas.TrieCompact
 import AnnVerif.Lemmas.TrieProof
 import AnnVerif.Lemmas.TrieSmall
 import AnnVerif.Lemmas.TrieBound
+import AnnVerif.Lemmas.TrieCommit
 namespace AnnVerif.C11
 open AnnVerif AnnVerif.StateJournal
 
@@ -547,6 +551,42 @@ theorem merkle_proof_verifies_bounded (H : Bytes → Bytes) (Hlen : ∀ x, (H x)
     Trie.verify H (Trie.prove H (build ws) (Trie.keybytesToHex q)) ((Trie.keybytesToHex q).length + 1)
       (Trie.rootHash H (build ws)) (Trie.keybytesToHex q) = some (Trie.lookup (build ws) q) ∨ Trie.Coll H :=
   merkle_proof_verifies H Hlen ws q hne (built_tries_are_small H Hlen ws hk hv)
+
+theorem built_tries_have_no_empty_value (ws : List (Bytes × Bytes)) : Trie.NVs (build ws) := by
+  obtain ⟨inv, g⟩ := trie_refines_map ws
+  apply Trie.nvs_of_content inv.1
+  intro r v hr hg
+  rw [List.nil_append] at hr
+  by_cases hex : ∃ q, r = Trie.keybytesToHex q
+  · obtain ⟨q, rfl⟩ := hex
+    have hl : ws.foldl mapUpdate (fun _ => none) q = some v := by
+      rw [← g q, lookup_eq_getN inv q]; exact hg
+    intro hv; subst hv
+    exact map_never_reads_empty ws _ q (by simp) hl
+  · have hni : ∀ q, r ≠ Trie.keybytesToHex q := fun q e => hex ⟨q, e⟩
+    have hnone := build_only_byte_keys ws r hr hni
+    unfold build at hnone
+    rw [hnone] at hg; cases hg
+
+/-- M9: THE ROOT COMMITS TO THE CONTENT. Two update sequences (keys <= 2^30 bytes, values <= 2^32
+    bytes) whose tries have the same root hash describe the same map - for every key - unless the
+    hash function collides. With M6: equal roots <=> equal content, up to collisions -/
+theorem equal_roots_equal_content (H : Bytes → Bytes) (Hlen : ∀ x, (H x).length = 32) (ws1 ws2 : List (Bytes × Bytes))
+    (hk1 : ∀ w ∈ ws1, w.1.length ≤ 2 ^ 30) (hv1 : ∀ w ∈ ws1, w.2.length ≤ 2 ^ 32)
+    (hk2 : ∀ w ∈ ws2, w.1.length ≤ 2 ^ 30) (hv2 : ∀ w ∈ ws2, w.2.length ≤ 2 ^ 32)
+    (he : Trie.rootHash H (build ws1) = Trie.rootHash H (build ws2)) :
+    (∀ q, ws1.foldl mapUpdate (fun _ => none) q = ws2.foldl mapUpdate (fun _ => none) q) ∨ Trie.Coll H := by
+  obtain ⟨i1, g1⟩ := trie_refines_map ws1
+  obtain ⟨i2, g2⟩ := trie_refines_map ws2
+  rcases Trie.root_commits H Hlen (build ws1) (build ws2) i1.1 i2.1
+      (built_tries_have_no_empty_value ws1) (built_tries_have_no_empty_value ws2)
+      (built_tries_are_small H Hlen ws1 hk1 hv1) (built_tries_are_small H Hlen ws2 hk2 hv2) he with h | h
+  · left
+    intro q
+    rw [← g1 q, ← g2 q]
+    show Trie.lookup (build ws1) q = Trie.lookup (build ws2) q
+    rw [h]
+  · exact Or.inr h
 
 /-- not vacuous: a trie with nodes stored by hash (values of 40 and 33 bytes) meets the hypotheses,
     its proofs have several elements, and they verify for a present and for an absent key (a toy
